@@ -1127,7 +1127,11 @@ impl<'a, 'b, W: Write> Serializer for &'a mut YamlSerializer<'b, W> {
             let has_controls = v
                 .chars()
                 .any(|c| c.is_control() && c != '\n' && c != '\t');
-            if (needs_indicator && (indent_n > 9 || base > 0)) || shallow_inline_seq || has_controls
+            // Inside a flow collection (`[..]` / `{..}`) there are no block scalars.
+            if (needs_indicator && (indent_n > 9 || base > 0))
+                || shallow_inline_seq
+                || has_controls
+                || self.in_flow > 0
             {
                 // Reset state and fall through to quoted string handling
                 self.pending_str_style = None;
